@@ -70,7 +70,8 @@ def g_obs(draw):
     k = draw(S._I10)
     if k < 7:
         lvl = draw(st.sampled_from(
-            ['all', 'paths', 'summary', 0, 1, 7, 50, 100000,
+            ['all', 'all', 'paths', 'paths', 'paths', 'paths', 'summary',
+             'summary', 'summary', 0, 1, 7, 50, 100000,
              ('mb', -2), ('mb', -1), ('mb', 0), ('mb', 1), ('mb', 2),
              ('mb', 3), ('mbq', -1), ('mbq', 0), ('mbq', 1), ('mbq', 2),
              ('mbq', 3)]))
@@ -106,11 +107,17 @@ def strategy():
         else:
             ex = draw(base)
         ex['conn']['stats'] = False
-        # more well-formed traffic than in C02
+        # more well-formed traffic than in C02, and results that are not
+        # empty (the observers format what was returned)
         for r in ex['responses']:
             if r['mode'] == 'xml' and draw(S._I10) < 6:
                 r['mut'] = []
                 r['status'] = (200, 'OK')
+                r.pop('payload_of', None)
+            if r['mode'] in ('xml', 'bytes') and not r['pool']['insts'] \
+                    and draw(S._I10) < 8:
+                r['pool'] = dict(r['pool'],
+                                 insts=list(c02._FIXED_POOL['insts']))
         return {'ex': ex, 'obs': g_obs(draw), 'prelude': draw(S._B)}
     return strat()
 
@@ -687,6 +694,61 @@ def stats_oracle(ctx, ex):
                                             'off')])
 
 
+# ---------------------------------------------------------------------------
+# sub-check: obsmatrix (exhaustive) - every operation with a plain valid,
+# non-empty answer under every basic observer configuration
+
+_OM_CONFIGS = [(name, level) for name in ('api', 'http', 'all')
+               for level in ('all', 'paths', 'summary', 0, 10)] + \
+    [('testrec', None), ('stats', None), ('debug', None),
+     ('everything', 'paths')]
+
+
+def obsmatrix_keys():
+    keys = []
+    calls = c02._fixed_calls()
+    for opn in O.ALL_OPS:
+        for ci in range(len(calls[opn])):
+            for eos in (1, 0):
+                if eos == 0 and not (opn.startswith(('Open', 'Pull', 'Iter'))):
+                    continue
+                for cfg in range(len(_OM_CONFIGS)):
+                    keys.append((opn, ci, eos, cfg))
+    return keys
+
+
+def obsmatrix_enumerate(ctx, shard, nshards):
+    for n, key in enumerate(obsmatrix_keys()):
+        if n % nshards == shard:
+            obsmatrix_replay(ctx, key)
+
+
+def obsmatrix_replay(ctx, key):
+    opn, ci, eos, cfg = key
+    key = (opn, ci, eos, cfg)
+    ctx.current = key
+    ex = c02._crosskind_example((opn, ci, opn if opn in R.KIND else
+                                 'GetInstance', 0, eos, None, 0))
+    ex['responses'][0].pop('payload_of', None)
+    ex['responses'][0].pop('mix', None)
+    # a second response ends an enumeration that the first one left open
+    last = dict(ex['responses'][0])
+    last['pool'] = dict(last['pool'], eos=True)
+    ex['responses'] = [ex['responses'][0], last]
+    name, level = _OM_CONFIGS[cfg]
+    obs = {'log': None, 'testrec': False, 'stats': False, 'debug': False}
+    if name in ('api', 'http', 'all'):
+        obs['log'] = {'name': name, 'dest': 'file', 'level': level,
+                      'how': 'conn'}
+    elif name == 'everything':
+        obs = {'log': {'name': 'all', 'dest': 'file', 'level': level,
+                       'how': 'conn'},
+               'testrec': True, 'stats': True, 'debug': True}
+    else:
+        obs[name] = True
+    _oracle(ctx, ex, obs, False)
+
+
 SUBCHECKS = [
     Sub('observers', strategy=strategy, oracle=oracle,
         quick=(16, 400), thorough=(16, 15000), case_timeout=120),
@@ -694,4 +756,7 @@ SUBCHECKS = [
         thorough=(16, 800), steps=(20, 40), case_timeout=120),
     Sub('stats_history', strategy=stats_strategy, oracle=stats_oracle,
         quick=(4, 300), thorough=(16, 5000)),
+    Sub('obsmatrix', enumerate=obsmatrix_enumerate, quick=(8, 0),
+        thorough=(8, 0)),
 ]
+SUBCHECKS[3].replay = obsmatrix_replay
